@@ -8,7 +8,28 @@
      - (recursive = true) every owner of an input of a finished stage finished EARLIER,
      - log is duplicate free, log is a subset of fin, and the log order is the fin order.
    The recursion stack [inprog] is a parameter of the model function (not a state), which makes
-   the fuel argument independent of W. *)
+   the fuel argument independent of W.
+
+   Vocabulary: [edge idx a b] = stage a is the owner (find_owner idx) of an input of stage b;
+   upstream = clos_refl_trans (edge idx); on a cycle = clos_trans (edge idx) a a;
+   [run_targets] (resp. checkout_/status_/commit_targets) = the fold over the targets that
+   System.step performs (lemmas step_CRun, step_CCheckout, step_CStatus, step_CCommit).
+
+   Final theorems (all closed under the global context):
+     C08_once, C08_once_single                  no stage twice in the log
+     C08_order, C08_order_single                owner executed before user (recursive = true)
+     C08_finish_order, C08_owners_before_exec   owners are in ran before the user is executed
+     C08_scope, C08_scope_single                visited stages are upstream of the targets
+     C08_cycle, C08_cycle_targets, C08_cycle_fuel   a cycle upstream of a target => Err
+     C08_executed_not_on_cycle, C08_cycle_exec_irrelevant(_single)
+                                                exec is never applied to a stage on a cycle
+     C08_fuel, C08_fuel_targets                 fuel = S (length idx) is enough
+     C08_checkout_cycle(_targets), C08_checkout_fuel(_targets)
+     C08_status_cycle(_targets),   C08_status_fuel(_targets)
+     C08_commit_cycle(_targets),   C08_commit_fuel(_targets)
+     C08_step_run, C08_step_run_cycle, C08_step_status_cycle, C08_step_checkout_cycle,
+     C08_step_commit_cycle                      the same at the level of one dud command
+   Examples (module Examples): a 3-stage chain and a 2-cycle. *)
 From Coq Require Import NArith List Bool Lia Relations.
 From DudV Require Import Base.Bytes Base.Json Model.Fs Model.Cache Model.Stage Model.Index.
 From DudV Require Model.System.
@@ -2338,7 +2359,7 @@ Section CommitCycle.
     destruct (commit_targets H strat fuel ts (Ok (mkI idx0 root c, []))) as [[st' done']|] eqn:Hrun;
       [|reflexivity].
     exfalso.
-    destruct (commit_targets_post fuel ts _ _ _ _ (conj (ishape_refl idx0) (core_nil idx0)) Hrun)
+    destruct (commit_targets_post fuel ts (mkI idx0 root c) [] _ _ (conj (ishape_refl idx0) (core_nil idx0)) Hrun)
       as [[_ Hc'] [_ Hts]].
     apply upstream_clos in Hup. apply path_clos_trans in Hcyc.
     eapply core_no_cycle_upstream; [exact Hc'|apply Hts; exact Ht|exact Hup|exact Hcyc].
@@ -2347,3 +2368,138 @@ End CommitCycle.
 
 Print Assumptions C08_commit_cycle.
 Print Assumptions C08_commit_cycle_targets.
+
+(* ------------------------------------------------------------------------------------------ *)
+(* the indexes that load_index builds are strictly sorted by key                               *)
+(* ------------------------------------------------------------------------------------------ *)
+Lemma bltb_trans a b c : bltb a b = true -> bltb b c = true -> bltb a c = true.
+Proof.
+  revert b c. induction a as [|x a IH]; intros [|y b] [|z c]; simpl; try congruence.
+  destruct (N.ltb_spec x y) as [Hxy|Hxy]; destruct (N.ltb_spec y z) as [Hyz|Hyz];
+    destruct (N.ltb_spec x z) as [Hxz|Hxz]; try reflexivity; try lia;
+    destruct (N.ltb_spec y x) as [Hyx|Hyx]; destruct (N.ltb_spec z y) as [Hzy|Hzy];
+    destruct (N.ltb_spec z x) as [Hzx|Hzx]; try discriminate; try lia.
+  apply IH.
+Qed.
+
+Lemma bltb_total a b : bltb a b = false -> beqb a b = false -> bltb b a = true.
+Proof.
+  revert b. induction a as [|x a IH]; intros [|y b]; simpl; try congruence.
+  destruct (N.ltb_spec x y) as [Hxy|Hxy]; [discriminate|].
+  destruct (N.ltb_spec y x) as [Hyx|Hyx]; [reflexivity|].
+  assert (Heq : x = y) by lia. subst y. rewrite N.eqb_refl. simpl. apply IH.
+Qed.
+
+Lemma ksorted_ins {A} k (v : A) l : ksorted (map fst l) -> ksorted (map fst (ins_sorted k v l)).
+Proof.
+  induction l as [|[k2 v2] r IH]; simpl.
+  - intros _. split; [intros k3 Hk3; destruct Hk3|exact I].
+  - intros [Hlt Hsr]. destruct (beqb k k2) eqn:Hk.
+    + apply beqb_eq in Hk. subst k2. simpl. split; assumption.
+    + destruct (bltb k k2) eqn:Hb; simpl.
+      * split; [|split; assumption].
+        intros k3 [Hk3|Hk3]; [subst k3; exact Hb|]. eapply bltb_trans; [exact Hb|apply Hlt; exact Hk3].
+      * split; [|apply IH; exact Hsr].
+        intros k3 Hk3. apply ins_sorted_keys in Hk3 as [Hk3|Hk3]; [|apply Hlt; exact Hk3].
+        subst k3. apply bltb_total; assumption.
+Qed.
+
+Lemma load_index_sorted files : forall lines idx idx',
+  load_index lines files idx = Some idx' -> ksorted (map fst idx) -> ksorted (map fst idx').
+Proof.
+  induction lines as [|l r IH]; intros idx idx'; simpl.
+  - intros Heq. inversion Heq. auto.
+  - destruct (alookup l files) as [[s|]|]; try discriminate.
+    destruct (validate l s); [|discriminate].
+    destruct (add_stage idx l s) as [idx1|] eqn:Hadd; [|discriminate].
+    intros Hload Hs. apply (IH _ _ Hload).
+    unfold add_stage in Hadd. destruct (alookup l idx); [discriminate|].
+    match type of Hadd with (if ?b then _ else _) = _ => destruct b end; [|discriminate].
+    inversion Hadd. apply ksorted_ins. exact Hs.
+Qed.
+
+(* ------------------------------------------------------------------------------------------ *)
+(* cycle => failure at the level of one dud command (System.step)                              *)
+(* ------------------------------------------------------------------------------------------ *)
+Section BridgeCycle.
+  Variable H : bytes -> bytes.
+  Variable sems : list (bytes * System.cmdsem).
+  Variable w : System.world.
+  Variable idx : index.
+  Hypothesis unlocked : System.w_lock w = false.
+  Hypothesis loaded : load_index (System.w_index w) (System.w_stages w) [] = Some idx.
+  Variables t a : bytes.
+  Hypothesis reach : clos_refl_trans bytes (edge idx) a t.
+  Hypothesis cyc : clos_trans bytes (edge idx) a a.
+
+  Lemma loaded_sorted : ksorted (map fst idx).
+  Proof. eapply load_index_sorted; [exact loaded|exact I]. Qed.
+
+  Lemma idx_nonempty targets : In t (System.all_or targets idx) -> idx <> [].
+  Proof.
+    intros Ht Heq. apply upstream_clos in reach. apply path_clos_trans in cyc.
+    assert (Hnoedge : forall x y, ~ edge idx x y).
+    { intros x y [stg [art [up [Hstg _]]]]. rewrite Heq in Hstg. discriminate. }
+    inversion cyc as [x y Hxy|x y z Hxy _]; subst; eapply Hnoedge; exact Hxy.
+  Qed.
+
+  Theorem C08_step_run_cycle targets :
+    In t (System.all_or targets idx) ->
+    System.step H sems w (System.CRun targets false) = (w, false, System.ONone).
+  Proof.
+    intros Ht. rewrite (step_CRun H sems w idx unlocked loaded targets false (idx_nonempty targets Ht)).
+    simpl negb.
+    rewrite (C08_cycle_targets H (System.exec sems) idx (System.w_cache w) _ _ _ _ _ t a
+                               (run_inv_init idx) Ht reach cyc).
+    reflexivity.
+  Qed.
+
+  Theorem C08_step_status_cycle targets :
+    In t (System.all_or targets idx) ->
+    System.step H sems w (System.CStatus targets) = (w, false, System.ONone).
+  Proof.
+    intros Ht. rewrite (step_CStatus H sems w idx unlocked loaded targets (idx_nonempty targets Ht)).
+    rewrite (C08_status_cycle_targets H idx (System.w_cache w) (System.w_root w) _ _ t a Ht reach cyc).
+    reflexivity.
+  Qed.
+
+  (* checkout is recursive when no target is given or when --single is not *)
+  Theorem C08_step_checkout_cycle targets copy single :
+    In t (System.all_or targets idx) ->
+    match targets with [] => true | _ => negb single end = true ->
+    System.step H sems w (System.CCheckout targets copy single) = (w, false, System.ONone).
+  Proof.
+    intros Ht Hrec.
+    rewrite (step_CCheckout H sems w idx unlocked loaded targets copy single (idx_nonempty targets Ht)).
+    rewrite Hrec.
+    rewrite (C08_checkout_cycle_targets H idx (System.w_cache w) (System.strat_of copy) _ _ _ t a Ht reach cyc).
+    reflexivity.
+  Qed.
+
+  Theorem C08_step_commit_cycle targets copy :
+    In t (System.all_or targets idx) ->
+    System.step H sems w (System.CCommit targets copy) = (w, false, System.ONone).
+  Proof.
+    intros Ht.
+    assert (Hne : System.all_or targets idx <> []).
+    { intros Heq. rewrite Heq in Ht. destruct Ht. }
+    rewrite (step_CCommit H sems w idx unlocked loaded targets copy Hne).
+    rewrite (C08_commit_cycle_targets H (System.strat_of copy) idx loaded_sorted _ _ _ _ t a Ht reach cyc).
+    reflexivity.
+  Qed.
+End BridgeCycle.
+
+Print Assumptions C08_step_run_cycle.
+Print Assumptions C08_step_status_cycle.
+Print Assumptions C08_step_checkout_cycle.
+Print Assumptions C08_step_commit_cycle.
+
+(* single-call form of the exec-irrelevance theorem, from the empty state *)
+Corollary C08_cycle_exec_irrelevant_single H exec exec' idx c fuel root t :
+  (forall sp stg root0, ~ clos_trans bytes (edge idx) sp sp -> exec sp stg root0 c = exec' sp stg root0 c) ->
+  run_stage H exec fuel idx c true root [] [] [] t = run_stage H exec' fuel idx c true root [] [] [] t.
+Proof.
+  intros Hagree. rewrite <- !run_targets_one.
+  apply C08_cycle_exec_irrelevant; [exact Hagree|apply run_inv_init].
+Qed.
+Print Assumptions C08_cycle_exec_irrelevant_single.
